@@ -82,6 +82,7 @@ class VTime(EngineBase):
             # little time too: a deadline may fall between two readings
             world["clock_cost"] = rng.choice([0.0005, 0.004, 0.004])
         plan = {"mode": mode, "world": world, "eintr": [], "jitter": jitter}
+        steps_ = rng.random() < 0.12
         if mode == "wait":
             timeout = rng.choice(TIMEOUTS)
             plan["procs"] = [self.gen_proc_spec(rng, 5, timeout)]
@@ -114,6 +115,14 @@ class VTime(EngineBase):
                     if ops[0]["op"] != "poll":
                         ops.insert(0, {"op": "poll"})
             plan["ops"] = ops
+            if steps_:
+                for o in ops:
+                    if o["op"] == "wait" and o["timeout"]:
+                        o["clock_steps"] = [{
+                            "at": rng.choice([0.001, 0.01, 0.3]) * min(
+                                1.0, max(0.01, o["timeout"])),
+                            "delta": rng.choice([-3600.0, 3600.0, -5.0,
+                                                 0.5])}]
             if rng.random() < 0.3:
                 plan["eintr"].append({"op_id": 0,
                                       "n": rng.choice([0, 1, 2, 3, 5, 8, 12])})
@@ -322,6 +331,13 @@ class VTime(EngineBase):
             if not scheduled:
                 schedule(t0, timeout)
                 scheduled = True
+            for cs in op.get("clock_steps") or []:
+                # the system (wall) clock is stepped while the call waits:
+                # deadlines are a matter of the monotonic clock
+                k.schedule_at_time(t0 + cs["at"], {"ev": "clock_step",
+                                                   "delta": cs["delta"]})
+                probes["wall_clock_stepped_during_wait"] = probes.get(
+                    "wall_clock_stepped_during_wait", 0) + 1
             for e in plan.get("eintr") or []:
                 if e["op_id"] == op.get("id"):
                     k.fault_kind[(0, idx, "waitpid", e["n"])] = {
@@ -664,7 +680,7 @@ VTime.COMPONENTS = {
              "time.monotonic/time.sleep (virtual clock, discrete events)"],
 }
 VTime.PROBES = ["eintr_fired", "exit_between_last_poll_and_deadline",
-                "query_between_waits",
+                "query_between_waits", "wall_clock_stepped_during_wait",
                 "exit_exactly_at_deadline", "ev_exit", "ev_reap"]
 
 ENGINE = VTime()
